@@ -309,7 +309,12 @@ fn main() {
             }
             // C05 / C19: the cutoff fires at poll k, for every k = 1..K+1
             "cutoff" => {
-                let cfg0 = RunCfg { cache: r.gen_bool(0.5), dom: m.dom != DomMode::None && r.gen_bool(0.3), level: "ret", ..base.clone() };
+                // some series are warm-started with the oracle's worst feasible solution (warm start x cutoff)
+                let primal = match (r.gen_bool(0.3), m.witness(true)) {
+                    (true, Some((vw, sw))) => vec![(vw, sw)],
+                    _ => vec![],
+                };
+                let cfg0 = RunCfg { cache: r.gen_bool(0.5), dom: m.dom != DomMode::None && r.gen_bool(0.3), level: "ret", primal, ..base.clone() };
                 let (_, full) = run_seq(m, &cfg0);
                 let k_max = full["polls"].as_u64().unwrap() as usize;
                 if full["watchdog"].as_bool().unwrap() {
